@@ -907,6 +907,41 @@ package spec
 //@   ensures  loaders-immutable @@ forall l *schemaLoader :: allocated(l) ==> l.root == old(l.root) && l.options == old(l.options) && l.cache == old(l.cache) && l.context == old(l.context)
 //@   ensures  string-elements-kept @@ strElemsKept(parentRefs)
 //@   ensures  stack-kept @@ forall i int :: 0 <= i && i < len(parentRefs) ==> parentRefs[i] == old(parentRefs[i])
+//@   loop 0 invariant runInv(resolver, old(resolver.options), old(resolver.cache), old(resolver.context), old(resolver.options.ContinueOnError), old(resolver.options.SkipSchemas), old(resolver.options.AbsoluteCircularRef), old(failures))
+//@   loop 0 invariant forall u string :: old(cacheDom[u]) ==> cacheDom[u]
+//@   loop 0 invariant forall k string :: old(has(resolver.context.circulars, k)) ==> has(resolver.context.circulars, k)
+//@   loop 0 invariant forall l *schemaLoader :: allocated(l) ==> l.root == old(l.root) && l.options == old(l.options) && l.cache == old(l.cache) && l.context == old(l.context)
+//@   loop 0 invariant strElemsKept(parentRefs)
+//@   loop 1 invariant runInv(resolver, old(resolver.options), old(resolver.cache), old(resolver.context), old(resolver.options.ContinueOnError), old(resolver.options.SkipSchemas), old(resolver.options.AbsoluteCircularRef), old(failures))
+//@   loop 1 invariant forall u string :: old(cacheDom[u]) ==> cacheDom[u]
+//@   loop 1 invariant forall k string :: old(has(resolver.context.circulars, k)) ==> has(resolver.context.circulars, k)
+//@   loop 1 invariant forall l *schemaLoader :: allocated(l) ==> l.root == old(l.root) && l.options == old(l.options) && l.cache == old(l.cache) && l.context == old(l.context)
+//@   loop 1 invariant strElemsKept(parentRefs)
+//@   loop 2 invariant runInv(resolver, old(resolver.options), old(resolver.cache), old(resolver.context), old(resolver.options.ContinueOnError), old(resolver.options.SkipSchemas), old(resolver.options.AbsoluteCircularRef), old(failures))
+//@   loop 2 invariant forall u string :: old(cacheDom[u]) ==> cacheDom[u]
+//@   loop 2 invariant forall k string :: old(has(resolver.context.circulars, k)) ==> has(resolver.context.circulars, k)
+//@   loop 2 invariant forall l *schemaLoader :: allocated(l) ==> l.root == old(l.root) && l.options == old(l.options) && l.cache == old(l.cache) && l.context == old(l.context)
+//@   loop 2 invariant strElemsKept(parentRefs)
+//@   loop 3 invariant runInv(resolver, old(resolver.options), old(resolver.cache), old(resolver.context), old(resolver.options.ContinueOnError), old(resolver.options.SkipSchemas), old(resolver.options.AbsoluteCircularRef), old(failures))
+//@   loop 3 invariant forall u string :: old(cacheDom[u]) ==> cacheDom[u]
+//@   loop 3 invariant forall k string :: old(has(resolver.context.circulars, k)) ==> has(resolver.context.circulars, k)
+//@   loop 3 invariant forall l *schemaLoader :: allocated(l) ==> l.root == old(l.root) && l.options == old(l.options) && l.cache == old(l.cache) && l.context == old(l.context)
+//@   loop 3 invariant strElemsKept(parentRefs)
+//@   loop 4 invariant runInv(resolver, old(resolver.options), old(resolver.cache), old(resolver.context), old(resolver.options.ContinueOnError), old(resolver.options.SkipSchemas), old(resolver.options.AbsoluteCircularRef), old(failures))
+//@   loop 4 invariant forall u string :: old(cacheDom[u]) ==> cacheDom[u]
+//@   loop 4 invariant forall k string :: old(has(resolver.context.circulars, k)) ==> has(resolver.context.circulars, k)
+//@   loop 4 invariant forall l *schemaLoader :: allocated(l) ==> l.root == old(l.root) && l.options == old(l.options) && l.cache == old(l.cache) && l.context == old(l.context)
+//@   loop 4 invariant strElemsKept(parentRefs)
+//@   loop 5 invariant runInv(resolver, old(resolver.options), old(resolver.cache), old(resolver.context), old(resolver.options.ContinueOnError), old(resolver.options.SkipSchemas), old(resolver.options.AbsoluteCircularRef), old(failures))
+//@   loop 5 invariant forall u string :: old(cacheDom[u]) ==> cacheDom[u]
+//@   loop 5 invariant forall k string :: old(has(resolver.context.circulars, k)) ==> has(resolver.context.circulars, k)
+//@   loop 5 invariant forall l *schemaLoader :: allocated(l) ==> l.root == old(l.root) && l.options == old(l.options) && l.cache == old(l.cache) && l.context == old(l.context)
+//@   loop 5 invariant strElemsKept(parentRefs)
+//@   loop 6 invariant runInv(resolver, old(resolver.options), old(resolver.cache), old(resolver.context), old(resolver.options.ContinueOnError), old(resolver.options.SkipSchemas), old(resolver.options.AbsoluteCircularRef), old(failures))
+//@   loop 6 invariant forall u string :: old(cacheDom[u]) ==> cacheDom[u]
+//@   loop 6 invariant forall k string :: old(has(resolver.context.circulars, k)) ==> has(resolver.context.circulars, k)
+//@   loop 6 invariant forall l *schemaLoader :: allocated(l) ==> l.root == old(l.root) && l.options == old(l.options) && l.cache == old(l.cache) && l.context == old(l.context)
+//@   loop 6 invariant strElemsKept(parentRefs)
 
 //@ func expandSchemaRef
 //@   strings  uninterpreted
